@@ -133,13 +133,19 @@ FAIL_RE = re.compile(r"=\s*\[(.*?)\]\s*:\s*list nat", re.S)
 
 
 def eval_cases(pid, header, cases, check_fn, shard=300, timeout=900, keep=False):
-    """Evaluate `check_fn : case -> bool` on Coq terms `cases` (list of strings).
+    """Evaluate `check_fn : case -> bool` on Coq terms `cases` (list of strings)."""
+    res, errors = eval_cases_multi(pid, header, cases, [check_fn], shard, timeout, keep)
+    return res[check_fn], errors
+
+
+def eval_cases_multi(pid, header, cases, check_fns, shard=300, timeout=900, keep=False):
+    """Evaluate several `case -> bool` functions on the same Coq terms.
 
     Writes shards gen/cases_<pid>_<k>.v of the form
         <header>
         Definition cases := [c0; c1; ...].
-        Eval vm_compute in (failing check_fn cases).
-    runs them in parallel and returns (failing_indices, errors)."""
+        Eval vm_compute in (failing f1 cases).  Eval vm_compute in (failing f2 cases). ...
+    runs them in parallel (16 at a time) and returns ({fn: failing_indices}, errors)."""
     os.makedirs(GEN, exist_ok=True)
     files = []
     for k in range(0, len(cases), shard):
@@ -147,28 +153,26 @@ def eval_cases(pid, header, cases, check_fn, shard=300, timeout=900, keep=False)
         with open(path, "w") as f:
             f.write(header + "\n")
             f.write("Definition cases := [\n" + ";\n".join(cases[k:k + shard]) + "\n].\n")
-            f.write(f"Eval vm_compute in (failing {check_fn} cases).\n")
+            for fn in check_fns:
+                f.write(f"Eval vm_compute in (failing {fn} cases).\n")
         files.append((k, path))
-    procs = []
-    for k, path in files:
-        out = path[:-2] + ".vo"
-        procs.append((k, path, subprocess.Popen(
-            ["timeout", str(timeout), "coqc"] + coq_args() + ["-o", out, path],
-            stdout=subprocess.PIPE, stderr=subprocess.STDOUT, text=True, cwd=GEN)))
-    failing, errors = [], []
-    for k, path, p in procs:
+    failing = {fn: [] for fn in check_fns}
+    errors = []
+    pending = list(files)
+    running = []
+
+    def finish(k, path, p):
         out, _ = p.communicate()
-        m = FAIL_RE.search(out)
-        if p.returncode != 0 or not m:
+        ms = FAIL_RE.findall(out)
+        if p.returncode != 0 or len(ms) != len(check_fns):
             errors.append((k, out[-3000:]))
-        else:
-            body = m.group(1).strip()
-            if body:
-                for tok in body.split(";"):
-                    tok = tok.strip().replace("%nat", "")
-                    if tok:
-                        failing.append(k + int(tok))
-        if not keep and p.returncode == 0 and m:
+            return
+        for fn, body in zip(check_fns, ms):
+            for tok in body.split(";"):
+                tok = tok.strip().replace("%nat", "")
+                if tok:
+                    failing[fn].append(k + int(tok))
+        if not keep:
             for ext in (".v", ".vo", ".glob", ".vok", ".vos"):
                 try:
                     os.remove(path[:-2] + ext)
@@ -178,7 +182,19 @@ def eval_cases(pid, header, cases, check_fn, shard=300, timeout=900, keep=False)
                 os.remove(os.path.join(GEN, "." + os.path.basename(path)[:-2] + ".aux"))
             except OSError:
                 pass
-    return sorted(failing), errors
+
+    while pending or running:
+        while pending and len(running) < 16:
+            k, path = pending.pop(0)
+            out = path[:-2] + ".vo"
+            running.append((k, path, subprocess.Popen(
+                ["timeout", str(timeout), "coqc"] + coq_args() + ["-o", out, path],
+                stdout=subprocess.PIPE, stderr=subprocess.STDOUT, text=True, cwd=GEN)))
+        k, path, p = running.pop(0)
+        finish(k, path, p)
+    for fn in failing:
+        failing[fn].sort()
+    return failing, errors
 
 
 FORBIDDEN = re.compile(r"\b(Admitted|admit|Axiom|Axioms|Parameter|Parameters|Conjecture|Hypothesis|Variable|Variables|Hypotheses)\b|Unset Guard|bypass_check|type-in-type|impredicative-set|Admit Obligations")
